@@ -179,6 +179,30 @@ def _raise_ng(what):
     return bw
 
 
+class DTypeName(str):
+    """dtype tag: a string that also answers the common numpy.dtype attributes"""
+    _codes = {"float64": "<f8", "float32": "<f4", "float16": "<f2", "int64": "<i8", "int32": "<i4", "int16": "<i2", "int8": "|i1",
+              "uint8": "|u1", "uint64": "<u8", "bool": "|b1"}
+
+    @property
+    def str(self):
+        return self._codes.get(str.__str__(self), "|O")
+
+    @property
+    def name(self):
+        return str.__str__(self)
+
+    @property
+    def itemsize(self):
+        c = self._codes.get(str.__str__(self))
+        return int(c[2:]) if c else 8
+
+    @property
+    def kind(self):
+        c = self._codes.get(str.__str__(self))
+        return c[1] if c else "O"
+
+
 class Arr:
     """common base of the Tensor and NDArray facades"""
     kind = "numpy"
@@ -191,7 +215,7 @@ class Arr:
             a = a.a
         a = _obj(a)
         self.a = a
-        self.dtype = dtype or _infer_dtype(a, self.kind)
+        self.dtype = DTypeName(dtype or _infer_dtype(a, self.kind))
         if node is None and _PENDING_NG:
             src, what = _PENDING_NG.pop()
             del _PENDING_NG[:]
